@@ -186,7 +186,24 @@ def addition_type(desc):
     return _addty_cache[k]
 
 
-def build_callable(api, decl, options_obj, var=None, kwty=None):
+def build_property(p):
+    """an output @property: getter = a constant or a field of the instance, return annotation, Field(on_error=…)"""
+    from utype import Field
+    if "field" in p:
+        def fn(self, _n=p["field"]):
+            return getattr(self, _n)
+    else:
+        def fn(self, _v=dec(p["const"])):
+            return _v
+    fn.__name__ = p["name"]
+    if p.get("ty") is not None:
+        fn.__annotations__ = {"return": build_type(p["ty"])}
+    if p.get("on_error"):
+        fn = Field(on_error=p["on_error"], required=False)(fn)
+    return property(fn)
+
+
+def build_callable(api, decl, options_obj, var=None, kwty=None, props=None):
     """returns parse(data, runtime_options) for the declaration"""
     import utype
     from utype import Schema
@@ -196,6 +213,8 @@ def build_callable(api, decl, options_obj, var=None, kwty=None):
             if f.get("ty") is not None:
                 ns["__annotations__"][f["name"]] = build_type(f["ty"])
             ns[f["name"]] = build_field(f)
+        for p in props or []:
+            ns[p["name"]] = build_property(p)
         if options_obj is not None:
             ns["__options__"] = options_obj
         cls = type("S", (Schema,), ns)
@@ -206,13 +225,13 @@ def build_callable(api, decl, options_obj, var=None, kwty=None):
         return call, cls
     # function: positional-or-keyword params first, then *args / *, keyword-only params, **kwargs
     g = {"utype": utype}
-    pos, kwonly = [], []
+    posonly, pos, kwonly = [], [], []
     for i, f in enumerate(decl):
         g[f"T{i}"] = build_type(f["ty"]) if f.get("ty") is not None else None
         g[f"F{i}"] = build_field(f)
         ann = f": T{i}" if f.get("ty") is not None else ""
-        (pos if f.get("pos") else kwonly).append(f"{f['name']}{ann} = F{i}")
-    params = list(pos)
+        (posonly if f.get("posonly") else pos if f.get("pos") else kwonly).append(f"{f['name']}{ann} = F{i}")
+    params = list(posonly) + (["/"] if posonly else []) + list(pos)
     if var is not None:
         if var.get("ty") is not None:
             g["TV"] = build_type(var["ty"])
@@ -504,20 +523,20 @@ def _cached(key, make):
     return _cls_cache[key]
 
 
-def get_decl(api, decl, o, optmode, mode, var=None, kwty=None):
+def get_decl(api, decl, o, optmode, mode, var=None, kwty=None, props=None):
     """(status, (call, object), runtime options) for the declaration in the given mode"""
     if optmode == "class":
-        key = json.dumps([api, decl, o, mode, var, kwty], sort_keys=True)
-        st, v = _cached(key, lambda: build_callable(api, decl, make_options(o, mode), var, kwty))
+        key = json.dumps([api, decl, o, mode, var, kwty, props], sort_keys=True)
+        st, v = _cached(key, lambda: build_callable(api, decl, make_options(o, mode), var, kwty, props))
         return st, v, None
-    key = json.dumps([api, decl, var, kwty], sort_keys=True)
-    st, v = _cached(key, lambda: build_callable(api, decl, None, var, kwty))
+    key = json.dumps([api, decl, var, kwty, props], sort_keys=True)
+    st, v = _cached(key, lambda: build_callable(api, decl, None, var, kwty, props))
     return st, v, make_options(o, mode)
 
 
-def run_decl(api, decl, o, optmode, mode, data, args=(), var=None, kwty=None):
+def run_decl(api, decl, o, optmode, mode, data, args=(), var=None, kwty=None, props=None):
     """one parse of `data` (and positional `args`) against the declaration with the given mode"""
-    st, v, ropts = get_decl(api, decl, o, optmode, mode, var, kwty)
+    st, v, ropts = get_decl(api, decl, o, optmode, mode, var, kwty, props)
     if st != "ok":
         return {"config_error": v}
     call = v[0]
@@ -533,6 +552,7 @@ def impl(case):
         return impl_type(case)
     api, decl, o, data = case["api"], case["decl"], case["opts"], case["data"]
     args_j, var, kwty = case.get("args") or [], case.get("var"), case.get("kwty")
+    props = case.get("props") or None
     optmode = case.get("optmode", "runtime")
     if api != "schema":
         optmode = "class"
@@ -540,11 +560,11 @@ def impl(case):
     pargs = tuple(dec(v) for v in args_j)
     if api == "func" and o.get("addition", "unset") not in ("unset", False):
         return {"config_error": "function without **kwargs cannot keep additions"}
-    runs = [run_decl(api, decl, o, optmode, m, pdata, pargs, var, kwty) for m in MODES]
+    runs = [run_decl(api, decl, o, optmode, m, pdata, pargs, var, kwty, props) for m in MODES]
     if any("config_error" in r for r in runs):
         return {"config_error": [r.get("config_error") for r in runs if "config_error" in r][0]}
     # ground truth: every top-level item on its own, fail-fast
-    posnames = [f["name"] for f in decl if f.get("pos")]
+    posnames = [f["name"] for f in decl if f.get("pos") or f.get("posonly")]
     given = posnames[:len(pargs)]
     alone = []
     o_full, decl_full = o, decl
@@ -554,7 +574,7 @@ def impl(case):
     for j, v in enumerate(pargs):
         if j < len(posnames):
             # the parameter it is bound to, given alone (by keyword)
-            d1 = [dict(f, pos=False) for f in decl if f["name"] == posnames[j]]
+            d1 = [dict(f, pos=False, posonly=False) for f in decl if f["name"] == posnames[j]]
             r = run_decl(api, d1, o, optmode, MODES[0], [(posnames[j], v)], (), None, kwty)
             alone.append([posnames[j], "ok" not in r])
         elif var is not None:
@@ -564,15 +584,32 @@ def impl(case):
     owner = {k: n for n, ks in accepted.items() for k in ks}
     for it in dict.fromkeys([f["name"] for f in decl if f["name"] not in given] + [owner.get(k, k) for k, _ in data]):
         # a field's item covers every key it accepts (aliases: outside the model, oracle only)
-        d1 = [dict(f, pos=False) for f in decl if f["name"] == it and it not in given]
+        d1 = [dict(f, pos=False, posonly=False) for f in decl if f["name"] == it and it not in given]
         keys = accepted.get(it, {it})
         r = run_decl(api, d1, o, optmode, MODES[0], [(k, v) for k, v in pdata if k in keys], (), None, kwty)
         alone.append([it, "ok" not in r])
     out = {"runs": runs, "alone": alone}
+    # output properties on their own: the source is fine (a constant, or its field parses alone) and the computed
+    # value is rejected by the return annotation
+    if props:
+        afail = {i for i, b in alone if b}
+        palone = []
+        for p in props:
+            if "field" in p:
+                src = [f for f in decl if f["name"] == p["field"]]
+                keys = accepted.get(p["field"], {p["field"]})
+                if p["field"] in afail or not any(k in keys for k, _ in pdata) and not any("default" in f for f in src):
+                    palone.append([p["name"], False])
+                    continue
+                r = run_decl(api, src, o, optmode, MODES[0], [(k, v) for k, v in pdata if k in keys], (), None, None, [p])
+            else:
+                r = run_decl(api, [], o, optmode, MODES[0], [], (), None, None, [p])
+            palone.append([p["name"], "ok" not in r])
+        out["palone"] = palone
     o, decl = o_full, decl_full
     # the tree the model runs on + the conversions it may ask for
     try:
-        st, v, _ = get_decl(api, decl, o, optmode, MODES[0], var, kwty)
+        st, v, _ = get_decl(api, decl, o, optmode, MODES[0], var, kwty, props)
         obj = v[1]
         parser = obj.__parser__
         fields = parser.fields
@@ -587,9 +624,10 @@ def impl(case):
         cl = Closure(eff, opt_add)
         base_flags = {(False, False)}
         byname = {f["name"]: f for f in decl}
-        if sorted(fields) != sorted(byname):
+        pnames = [p["name"] for p in props or []]
+        if sorted(n for n in fields if n not in pnames) != sorted(byname):
             raise Unmodelled("declared fields differ from the parser's")
-        order = list(fields)          # the parser's own field order (annotated attributes first)
+        order = [n for n in fields if n not in pnames]          # the parser's own field order (annotated attributes first)
         if [n for n in order if byname[n].get("pos")] != order[:len(posnames)] or \
                 [n for n in order if byname[n].get("pos")] != posnames:
             raise Unmodelled("positional parameters are not the first fields")
@@ -601,12 +639,12 @@ def impl(case):
             deps = sorted(pf.dependencies or [])
             if any(d not in byname for d in deps):
                 raise Unmodelled("dependency on something that is not a declared field")
-            if getattr(pf, "positional_only", False):
-                raise Unmodelled("positional-only parameter")
+            if bool(getattr(pf, "positional_only", False)) != bool(f.get("posonly")):
+                raise Unmodelled("positional-only flag differs")
             ty = resolve(pf.type, cons_table) if pf.type is not None else None
             rdecl.append({"name": f["name"], "ty": strip(ty), "required": bool(pf.is_required(make_options(o, MODES[0]))),
                           **({"default": f["default"]} if "default" in f else {}), "on_error": f.get("on_error"),
-                          "deps": deps})
+                          "deps": deps, "posOnly": bool(f.get("posonly"))})
             if ty is not None:
                 S = {vkey(v): v for k, v in data if k == f["name"]}
                 if f["name"] in given:
@@ -623,6 +661,39 @@ def impl(case):
             out["call"] = {"npos": len(posnames), "hasVar": True, "posTy": strip(pos_ty), "args": args_j}
         elif posnames or args_j:
             out["call"] = {"npos": len(posnames), "hasVar": False, "posTy": None, "args": args_j}
+        if "call" in out:
+            out["call"]["nposOnly"] = sum(1 for f in decl if f.get("posonly"))
+        if props:
+            rprops = []
+            for p in props:
+                pf = fields[p["name"]]
+                pty = resolve(pf.output_type, cons_table) if pf.output_type is not None else None
+                rp = {"name": p["name"], "ty": strip(pty), "on_error": p.get("on_error")}
+                if "field" in p:
+                    rp["field"] = p["field"]
+                    # the value the getter returns: a result of the field's type, or its default
+                    src = byname[p["field"]]
+                    S = {}
+                    if pty is not None:
+                        fty = resolve(fields[p["field"]].type, []) if fields[p["field"]].type is not None else None
+                        for k, v in data:
+                            if k == p["field"]:
+                                S[vkey(v)] = v          # kept raw under the preserve policy
+                                if fty is None:
+                                    pass
+                                else:
+                                    S.update(cl.need(fty, {vkey(v): v}, base_flags))
+                        if "default" in src and src["default"] is not None:
+                            S[vkey(src["default"])] = src["default"]
+                        if "default" in src and src["default"] is None:
+                            S["null"] = None
+                        cl.need(pty, S, base_flags)
+                else:
+                    rp["const"] = p["const"]
+                    if pty is not None:
+                        cl.need(pty, {vkey(p["const"]): p["const"]}, base_flags)
+                rprops.append(rp)
+            out["rprops"] = rprops
         out["resolved"] = rdecl
         out["ropts"] = {"addition": {"typed": strip(opt_add)} if opt_add is not None else
                         (None if eff.get("addition", "unset") == "unset" else eff["addition"]),
@@ -925,9 +996,28 @@ def gen_case(rng, api=None):
     case = {"kind": "parse", "api": api, "optmode": rng.choice(["runtime", "class"]), "decl": decl, "opts": o, "data": data}
     if kwty is not None:
         case["kwty"] = kwty
+    if api == "schema" and rng.random() < 0.3:
+        case["props"] = gen_props(rng, decl)
     if api != "schema" and rng.random() < 0.55:
         make_positional(rng, case)
     return case
+
+
+def gen_props(rng, decl):
+    """output @property fields: the getter returns a constant or a field that is always set on success"""
+    props = []
+    for name in ["p1", "p2"][:rng.choice([1, 1, 2])]:
+        ty = rng.choice([gen_scalar_ty(rng), gen_scalar_ty(rng), {"list": gen_scalar_ty(rng)}, None])
+        p = {"name": name, "ty": ty}
+        refs = [f["name"] for f in decl if f["required"] or f.get("default") is not None]
+        if refs and rng.random() < 0.5:
+            p["field"] = rng.choice(refs)
+        else:
+            p["const"] = gen_val(rng, ty or {"t": "int"}, good=rng.random() < 0.5)
+        if rng.random() < 0.35:
+            p["on_error"] = rng.choice(POLICIES)
+        props.append(p)
+    return props
 
 
 def gen_addty(rng):
@@ -957,6 +1047,10 @@ def make_positional(rng, case):
     for f in decl[:npos]:
         if f["ty"] is None:
             f["ty"] = {"t": "int"}
+    # positional-only parameters (`/`): a prefix of the positional ones, required ones first (utype insists)
+    r = rng.random()
+    nposonly = 0 if r < 0.5 else npos if r < 0.75 else rng.randint(1, npos)
+    decl[:nposonly] = sorted(decl[:nposonly], key=lambda f: not f["required"])
     given = 0
     for f in decl[:npos]:
         if f["name"] in data and rng.random() < 0.8:
@@ -975,6 +1069,14 @@ def make_positional(rng, case):
             args += [gen_val(rng, vt, good=rng.random() < 0.6) for _ in range(rng.choice([0, 1, 2, 3]))]
     elif given == npos and rng.random() < 0.1:
         args.append(enc(7))           # an excess positional argument (ignored by parse_params)
+    # positional-only parameters are never passed by keyword
+    for f in decl[:nposonly]:
+        f["posonly"] = True
+        data.pop(f["name"], None)
+        for al in f.get("alias_from") or []:
+            data.pop(al, None)
+    if nposonly == len(decl) and case["api"] == "func" and rng.random() < 0.6:
+        data.clear()                  # an all-positional-only signature called without any keyword
     case["args"] = args
     case["data"] = [[k, v] for k, v in case["data"] if k in data]
 
@@ -1067,6 +1169,8 @@ def global_truth(case, io):
     owner = {k: f["name"] for f in decl for k in [f["name"], *(f.get("alias_from") or [])]}
     bykw = {owner.get(k, k) for k, _ in case["data"]}
     given = set(posnames[:len(case.get("args") or [])]) | bykw
+    # an omitted optional positional-only parameter is in parsed_keys too (func.py:676): it satisfies dependencies
+    given |= {f["name"] for f in decl if f.get("posonly") and not f["required"]}
     failing = set(failing_items(io))
     exceed = bool(o.get("max_params")) and n > o["max_params"]
     lack = bool(o.get("min_params")) and n < o["min_params"]
@@ -1169,6 +1273,8 @@ class C10(Check):
                 "legacy": bool(case.get("legacy")), "items": [i for i, _ in io["alone"]]}
         if "call" in io:
             line["call"] = io["call"]
+        if io.get("rprops"):
+            line["props"] = io["rprops"]
         return line
 
     def compare(self, case, io, mo):
@@ -1216,6 +1322,8 @@ class C10(Check):
                 return f"mode {mode}: impl={a} model={b}"
         if io["alone"] != m["alone"]:
             return f"items failing alone: impl={io['alone']} model={m['alone']}"
+        if io.get("palone") and io["palone"] != m.get("palone"):
+            return f"output properties failing alone: impl={io['palone']} model={m.get('palone')}"
         return None
 
     @staticmethod
@@ -1225,7 +1333,8 @@ class C10(Check):
             return ok
         call = io["call"]
         names = [f["name"] for f in io["resolved"]][:call["npos"]]
-        g = min(len(call["args"]), call["npos"])
+        # positional part: what was given plus the defaults of omitted positional-only parameters; the rest is *args
+        g = call["npos"] if (call["hasVar"] and len(call["args"]) >= call["npos"]) else min(len(ok["args"]), call["npos"])
         out = [[names[j], ok["args"][j]] for j in range(min(g, len(ok["args"])))]
         if call["hasVar"]:
             out.append(["__args", {"l": ok["args"][g:]}])
@@ -1249,6 +1358,8 @@ class C10(Check):
         ff = io["runs"][0]
         failing = failing_items(io)
         exceed, too_few, deps_possible, deps_certain = global_truth(case, io)
+        pnames = {p["name"] for p in case.get("props") or []}
+        pfail = sorted(p for p, b in io.get("palone") or [] if b)
         for mode, r in zip(MODES[1:], io["runs"][1:]):
             tag = f"collect_errors=True,max_errors={mode[1]}"
             if ("ok" in ff) != ("ok" in r):
@@ -1274,6 +1385,19 @@ class C10(Check):
                                     or (deps_certain and "DependenciesAbsenceError" not in glob)):
                 return f"{tag}: the mapping as a whole fails (exceed={exceed}, lack={too_few}, dependency={deps_certain}) but reports only {glob}"
             named = [it for _, it in r["errors"] if it is not None]
+            if any(it in pnames for it in named):
+                # second phase (__post_init__): only reached when the input was accepted; the errors name the output
+                # properties whose computed value the return annotation rejects
+                if failing or glob or exceed or too_few or deps_certain:
+                    return f"{tag}: output properties {named} reported although the input itself fails ({failing}, {glob})"
+                extra = sorted(set(named) - set(pfail))
+                if extra:
+                    return f"{tag}: reports output propert(ies) {extra} that do not fail on their own (failing: {pfail})"
+                if mode[1] is None and sorted(set(named)) != pfail:
+                    return f"{tag}: failing output propert(ies) {sorted(set(pfail) - set(named))} are not reported"
+                if mode[1] is not None and len(r["errors"]) > mode[1]:
+                    return f"{tag}: {len(r['errors'])} errors reported, more than max_errors"
+                continue
             extra = sorted(set(named) - set(failing))
             if extra:
                 return f"{tag}: reports item(s) {extra} that do not fail on their own (failing: {failing})"
@@ -1287,7 +1411,9 @@ class C10(Check):
             return f"accepted although item(s) {failing} fail on their own"
         if "ok" in ff and (exceed or too_few or deps_certain):
             return f"accepted although the mapping as a whole fails (exceed={exceed}, lack={too_few}, dependency={deps_certain})"
-        if "ok" not in ff and not failing and not (exceed or too_few or deps_possible):
+        if "ok" in ff and pfail:
+            return f"accepted although the computed output propert(ies) {pfail} fail their return annotation"
+        if "ok" not in ff and not failing and not pfail and not (exceed or too_few or deps_possible):
             return "rejected although no top-level item fails on its own and the mapping as a whole has nothing to report"
         return None
 
